@@ -26,7 +26,7 @@ Del(reg, S) == [x \in DOMAIN reg \ S |-> reg[x]]
 DoRegister(reg, o, i, force, weak) ==
     IF IsClass(o) /\ weak THEN [reg |-> reg, out |-> "TypeError"]
     ELSE IF Unregistrable(o) \/ i \in BadIds THEN [reg |-> reg, out |-> "error"]      \* refused, whatever the flags, without effect
-    ELSE IF i = "daemon" /\ ~force THEN [reg |-> reg, out |-> "DaemonError"]     \* the reserved id is always taken
+    ELSE IF i = "daemon" THEN [reg |-> reg, out |-> "DaemonError"]     \* the reserved id is always taken, and force does not take it away
     ELSE IF ~force /\ (i \in DOMAIN reg \/ Registered(reg, o)) THEN [reg |-> reg, out |-> "DaemonError"]
     \* (a forced registration of an object that is registered under another id already adds the second id: both reach it)
     ELSE [reg |-> Put(IF force THEN reg ELSE Del(reg, {j \in DOMAIN reg : reg[j].obj = o}), i, o, weak), out |-> "ok"]
@@ -55,9 +55,9 @@ RegisterGen(o, weak) ==
     /\ UNCHANGED held
 UnregisterId(i) == reg' = DoUnregisterId(reg, i) /\ UNCHANGED <<held, ngen>>
 UnregisterObj(o) == o \in held /\ reg' = DoUnregisterObj(reg, o) /\ UNCHANGED <<held, ngen>>
-\* attempts on the daemon's own object (by object, or an unforced registration under its id) change nothing
+\* attempts on the daemon's own object (by object, or a registration under its id, forced or not) change nothing
 UnregisterDaemonObj == UNCHANGED vars
-RegisterAsDaemon(o, weak) == o \in held /\ reg' = DoRegister(reg, o, "daemon", FALSE, weak).reg /\ UNCHANGED <<held, ngen>>
+RegisterAsDaemon(o, force, weak) == o \in held /\ reg' = DoRegister(reg, o, "daemon", force, weak).reg /\ UNCHANGED <<held, ngen>>
 \* the application lets go of an instance; if it was only weakly registered it disappears from the registry
 Gc(o) == /\ o \in held /\ ~IsClass(o) /\ (Registered(reg, o) => reg[IdOf(reg, o)].weak)
          /\ held' = held \ {o} /\ reg' = DoGc(reg, o) /\ UNCHANGED ngen
@@ -67,7 +67,7 @@ Next == \/ \E o \in Objects, i \in {"x", "y"}, f \in BOOLEAN, w \in BOOLEAN : Re
         \/ \E i \in {"x", "y", "g1", "daemon"} : UnregisterId(i)
         \/ \E o \in Objects : UnregisterObj(o) \/ Gc(o)
         \/ UnregisterDaemonObj
-        \/ \E o \in Objects, w \in BOOLEAN : RegisterAsDaemon(o, w)
+        \/ \E o \in Objects, f \in BOOLEAN, w \in BOOLEAN : RegisterAsDaemon(o, f, w)
 Spec == Init /\ [][Next]_vars
 
 \* ---- property C16 (design level) ----
